@@ -72,6 +72,21 @@ fn binary_sees_the_draw(root: &str, ops: &[String], depth: u8, drawing: &[String
         let r = (|| -> Result<(), Fail> {
             let io = |x: String| Fail::new("binary:engine_died_or_silent", format!("after '{cmd}': {x}"));
             e.send("ucinewgame").map_err(io)?;
+            // every other case: the position two plies back is analysed first in the same session
+            if ops.len() >= 2 && ops.len() % 2 == 0 {
+                let pre = &ops[..ops.len() - 2];
+                e.send(&if pre.is_empty() { format!("position fen {root}") } else { format!("position fen {root} moves {}", pre.join(" ")) }).map_err(io)?;
+                e.send(&format!("go depth {}", depth + 1)).map_err(io)?;
+                loop {
+                    match e.read_line(Duration::from_secs(60)) {
+                        Ok(Some(l)) if l.starts_with("bestmove") => break,
+                        Ok(Some(l)) if l.contains("panic") => return Err(io(format!("panic line: {l}"))),
+                        Ok(Some(_)) => {}
+                        Ok(None) => return Err(io("end of output".into())),
+                        Err(x) => return Err(io(x)),
+                    }
+                }
+            }
             e.send(&cmd).map_err(io)?;
             e.send(&format!("go depth {depth}")).map_err(io)?;
             loop {
@@ -341,6 +356,38 @@ pub fn run(run: &mut Run) -> &'static str {
             }
         }
         let Limit::Depth(d) = spec.limit else { return Ok(()) };
+        // the same search on tables that an earlier analysis of this game has filled: the positions one
+        // and two plies back are searched first (a ply deeper), on the same state and without a reset,
+        // so that the table holds entries for the very positions that are repetitions now - written
+        // when they were not
+        let mut primed = crate::engine::search::PersistentState::new(1);
+        let mut prefixes: Vec<usize> = vec![];
+        for back in [2usize, 1] {
+            if ops.len() >= back {
+                prefixes.push(ops.len() - back);
+            }
+        }
+        for n in &prefixes {
+            let pre = SearchSpec { fen: root.clone(), moves: ops[..*n].to_vec(), limit: Limit::Depth(d + 1) };
+            if let Some((ppos, pgame)) = build(&pre) {
+                if !ppos.legal_moves().is_empty() {
+                    let _ = run_search(&pgame, &mut primed, &pre.limit, 0);
+                }
+            }
+        }
+        if !prefixes.is_empty() {
+            st.class("search_on_tables_filled_by_earlier_analysis_of_the_same_game");
+            let out = run_search(&game, &mut primed, &spec.limit, 0).map_err(|pm| Fail::new(&format!("search_panic:{}", panic_signature(&pm)), format!("search at {} panicked: {pm}", cur.to_fen())).explicit(ex()))?;
+            for info in &out.infos {
+                if info.mate.map_or(false, |n| n < 0) || info.cp.map_or(false, |c| c < 0) {
+                    return Err(Fail::new(
+                        "search:draw_not_taken_into_account(tables_from_earlier_analysis)",
+                        format!("{} after {} plies, on tables filled by searching the positions one and two plies back: the move(s) {drawing:?} lead to a position drawn by the game history, yet the search reports '{}'", cur.to_fen(), ops.len(), info.text()),
+                    )
+                    .explicit(ex()));
+                }
+            }
+        }
         binary_sees_the_draw(&root, &ops, d, &drawing, &cur.to_fen(), st).map_err(|f| f.explicit(ex()))
     });
     // the same oracle on constructed games whose only repetition lies far back: the two kings walk
